@@ -82,7 +82,15 @@ pub enum Item {
     Service { items: Vec<Item> },
     /// same service, fresh thread
     Hop { carry: Carry, fut: bool, items: Vec<Item> },
-    Join { carry: bool, tasks: Vec<Vec<Item>>, schedule: Vec<u8> },
+    /// `carry`: every task is wrapped in `Frame::current(rt.ctxt()).in_future(..)` (a spawned task);
+    /// `migrate` (only with `carry`): polls whose schedule entry has bit 3 set run on a fresh thread
+    Join {
+        carry: bool,
+        #[serde(default)]
+        migrate: bool,
+        tasks: Vec<Vec<Item>>,
+        schedule: Vec<u8>,
+    },
 }
 
 #[derive(Serialize, Deserialize, Debug, Clone)]
@@ -123,7 +131,7 @@ pub enum PItem {
     Push { id: usize, header: Header, via: PushVia, items: Vec<PItem>, pre: usize, post: usize },
     Service { id: usize, items: Vec<PItem>, pre: usize, end: usize, post: usize },
     Hop { id: usize, carry: Carry, fut: bool, items: Vec<PItem>, pre: usize, end: usize, post: usize },
-    Join { carry: bool, tasks: Vec<Vec<PItem>>, schedule: Vec<u8>, post: usize },
+    Join { carry: bool, migrate: bool, tasks: Vec<Vec<PItem>>, schedule: Vec<u8>, post: usize },
 }
 
 #[derive(Debug)]
@@ -210,10 +218,10 @@ impl Numberer {
                 let post = self.check();
                 PItem::Hop { id, carry: *carry, fut: *fut, items, pre, end, post }
             }
-            Item::Join { carry, tasks, schedule } => {
+            Item::Join { carry, migrate, tasks, schedule } => {
                 let tasks = tasks.iter().map(|t| self.items(t)).collect();
                 let post = self.check();
-                PItem::Join { carry: *carry, tasks, schedule: schedule.clone(), post }
+                PItem::Join { carry: *carry, migrate: *carry && *migrate, tasks, schedule: schedule.clone(), post }
             }
         }
     }
